@@ -101,3 +101,20 @@ func (d *detRand) Read(p []byte) (int, error) {
 	}
 	return len(p), nil
 }
+
+// sessBuf hands the session string to the library inside ONE reused backing array, as a caller that keeps a scratch
+// buffer for session identifiers would: code that retains or aliases the slice it is given shows up as a wrong verdict.
+var sessScratch = make([]byte, 0, 4096)
+var sessMu sync.Mutex
+
+func sessBuf(v val.V) []byte {
+	b := val.AsBytes(v)
+	if len(b) > cap(sessScratch) {
+		return b
+	}
+	sessMu.Lock()
+	defer sessMu.Unlock()
+	sessScratch = sessScratch[:len(b)]
+	copy(sessScratch, b)
+	return sessScratch
+}
